@@ -4,12 +4,18 @@
     /repo/src/memvid/search/api.rs   Memvid::search_vec   (dimension validation)
     /repo/src/vec.rs                 VecIndexBuilder::finish / VecIndex::decode (bincode, uncompressed)
 
-  Distances are an abstract type `D` with the comparison `pcmp` (= `f32::partial_cmp`); the
-  distance function is a parameter (`l2_distance` = C38).  `sort_by` is Rust's STABLE sort; it is
-  modelled by core `List.mergeSort` (also stable).  Under a total preorder every stable sort
-  returns the same list, so the choice of algorithm is immaterial exactly when the theorems'
-  hypothesis `NoNaN` holds; with NaN distances Rust leaves the result unspecified (and may panic
-  since 1.81) — the model is then NOT claimed faithful.
+  Distances are an abstract type `D` with the comparison `pcmp` (= `f32::partial_cmp`) and the
+  test `isNan` (= `f32::is_nan`); the distance function is a parameter (`l2_distance` = C38).
+  `sort_by` is Rust's STABLE sort; it is modelled by core `List.mergeSort` (also stable): when the
+  comparator is a total preorder every stable sort returns the same list, so the algorithm is
+  immaterial.
+
+  The comparator modelled is the REPAIRED one (/verif/fixes/C13.diff):
+      partial_cmp(..).unwrap_or_else(|| a.distance.is_nan().cmp(&b.distance.is_nan()))
+  (NaN distances sort last).  The code before the repair, `partial_cmp(..).unwrap_or(Equal)`, is
+  kept as `cmpHitsOld` / `searchOld`: with a NaN distance it is not a total preorder, Rust's
+  sort_by may then panic ("user-provided comparison function does not correctly implement a total
+  order") or scramble the ranking; `searchOld` is NOT claimed to predict what Rust does there.
 -/
 import MvModel.Simd
 import MvModel.Bytes
@@ -29,23 +35,33 @@ deriving DecidableEq, Repr
 
 variable {F D : Type}
 
-/-- `a.distance.partial_cmp(&b.distance).unwrap_or(Ordering::Equal)` -/
-def cmpHits (pcmp : D → D → Option Ordering) (a b : Hit D) : Ordering :=
-  (pcmp a.distance b.distance).getD .eq
+/-- repaired comparator:
+    `a.distance.partial_cmp(&b.distance).unwrap_or_else(|| a.distance.is_nan().cmp(&b.distance.is_nan()))` -/
+def cmpHits (pcmp : D → D → Option Ordering) (isNan : D → Bool) (a b : Hit D) : Ordering :=
+  (pcmp a.distance b.distance).getD (compare (isNan a.distance) (isNan b.distance))
 
 /-- "a may stay before b": the comparator does not say Greater -/
-def leHits (pcmp : D → D → Option Ordering) (a b : Hit D) : Bool :=
-  cmpHits pcmp a b != .gt
+def leHits (pcmp : D → D → Option Ordering) (isNan : D → Bool) (a b : Hit D) : Bool :=
+  cmpHits pcmp isNan a b != .gt
 
 /-- the scored list before sorting: `documents.iter().map(|doc| VecSearchHit {..}).collect()` -/
 def score (dist : List F → List F → D) (docs : List (Doc F)) (query : List F) : List (Hit D) :=
   docs.map fun doc => { frameId := doc.frameId, distance := dist query doc.embedding }
 
 /-- `VecIndex::search`, `Uncompressed` arm -/
-def search (dist : List F → List F → D) (pcmp : D → D → Option Ordering)
+def search (dist : List F → List F → D) (pcmp : D → D → Option Ordering) (isNan : D → Bool)
     (docs : List (Doc F)) (query : List F) (limit : Nat) : List (Hit D) :=
   if query.isEmpty then []
-  else ((score dist docs query).mergeSort (leHits pcmp)).take limit
+  else ((score dist docs query).mergeSort (leHits pcmp isNan)).take limit
+
+/-- comparator before the repair: `partial_cmp(..).unwrap_or(Ordering::Equal)` -/
+def cmpHitsOld (pcmp : D → D → Option Ordering) (a b : Hit D) : Ordering :=
+  (pcmp a.distance b.distance).getD .eq
+
+def searchOld (dist : List F → List F → D) (pcmp : D → D → Option Ordering)
+    (docs : List (Doc F)) (query : List F) (limit : Nat) : List (Hit D) :=
+  if query.isEmpty then []
+  else ((score dist docs query).mergeSort (fun a b => cmpHitsOld pcmp a b != .gt)).take limit
 
 inductive Err where
   | vecNotEnabled
@@ -62,7 +78,7 @@ structure VecState (F : Type) where
   index : Option (List (Doc F))
 
 /-- `Memvid::search_vec` -/
-def searchVec (dist : List F → List F → D) (pcmp : D → D → Option Ordering)
+def searchVec (dist : List F → List F → D) (pcmp : D → D → Option Ordering) (isNan : D → Bool)
     (st : VecState F) (query : List F) (limit : Nat) : Except Err (List (Hit D)) :=
   if !st.vecEnabled then .error .vecNotEnabled
   else
@@ -75,17 +91,30 @@ def searchVec (dist : List F → List F → D) (pcmp : D → D → Option Orderi
       .error (.dimMismatch expectedDim query.length)
     else match st.index with
       | none => .error .vecNotEnabled
-      | some docs => .ok (search dist pcmp docs query limit)
+      | some docs => .ok (search dist pcmp isNan docs query limit)
 
-/-! ### exact instance run by the driver: squared distances over ℚ, compared exactly -/
+/-! ### exact instance run by the driver: squared distances over ℚ ∪ {NaN}, compared exactly -/
 
 /-- total comparison of rationals in `partial_cmp` shape -/
 def ratCmp (x y : Rat) : Option Ordering :=
   if x < y then some .lt else if y < x then some .gt else some .eq
 
-/-- exact squared distance (same order as the distance itself); `-1` marks the debug-assert
-    panic of a length mismatch, which the driver reports before searching -/
+/-- `none` plays NaN -/
+def optRatCmp : Option Rat → Option Rat → Option Ordering
+  | some x, some y => ratCmp x y
+  | _, _ => none
+
+def optIsNan (x : Option Rat) : Bool := x.isNone
+
+/-- exact squared distance (same order as the distance itself); the driver reports the
+    debug-assert panic of a length mismatch before searching (`-1` is never seen) -/
 def sqDist (q e : List Rat) : Rat := (Simd.l2DistanceSquaredSimd Simd.ratOps q e).getD (-1)
+
+/-- vectors with NaN components (`none`): any NaN component makes the distance NaN -/
+def sqDistNan (q e : List (Option Rat)) : Option Rat :=
+  match q.mapM id, e.mapM id with
+  | some q', some e' => some (sqDist q' e')
+  | _, _ => none
 
 /-! ### persistence of the uncompressed index: bincode (fixed-int, little-endian) of
     `Vec<VecDocument>`; an f32 travels as its 32-bit pattern (`Nat < 2^32`) -/
